@@ -258,9 +258,18 @@ class ExprMixin:
         return nf.sym(name)
 
     # ------------------------------------------------------------- operators
+    DUNDER = {ast.BitAnd: '__and__', ast.BitOr: '__or__', ast.BitXor: '__xor__', ast.MatMult: '__matmul__'}
+
     def e_BinOp(self, node, st):
         a, b = self.eval(node.left, st), self.eval(node.right, st)
         op = BINOP.get(type(node.op), 'binop')
+        dn = self.DUNDER.get(type(node.op))
+        if dn is not None and isinstance(a, Poly) and a.single_atom() is not None and a.single_atom()[0] == 'fresh':
+            # `x & y` on records of a private class that defines the operator (not used for arithmetic on arrays)
+            cls_ = self.class_of(a)
+            fm_ = cls_.find_method(dn) if cls_ is not None else None
+            if fm_ is not None and hasattr(self, 'call_internal'):
+                return self.call_internal(fm_, [b], {}, st, node, self_val=a)
         if op in ('div', 'pow', 'floordiv', 'mod'):
             # the operands as evaluated (the normal form of the result no longer shows what was divided by what)
             self.log(st, 'arith', node, op=op, left=a, right=b)
